@@ -39,8 +39,46 @@ func checkC12(w *World, r *Report) {
 		}
 		return out
 	}
+	// memo fields: a Context method fills the field lazily under a nil test of that same field (c.cachedQuery). Such a
+	// field holds data computed from an earlier state of the context, so being assigned is not enough: it has to be nil
+	// when the context is exposed.
+	memo := map[*types.Var]bool{}
+	for _, m := range w.MethodsOf("cTx") {
+		if len(m.Params) == 0 {
+			continue
+		}
+		tested := map[*types.Var]bool{}
+		for _, b := range m.Blocks {
+			for _, in := range b.Instrs {
+				if iff, ok := in.(*ssa.If); ok {
+					if bo, ok := iff.Cond.(*ssa.BinOp); ok && isNilConst(bo.Y) {
+						if base, f, ok := loadedField(bo.X); ok && stripIface(seeThrough(base)) == ssa.Value(m.Params[0]) {
+							tested[f] = true
+						}
+					}
+				}
+			}
+		}
+		for _, b := range m.Blocks {
+			for _, in := range b.Instrs {
+				if st, ok := in.(*ssa.Store); ok {
+					if base, f, ok := fieldOfAddr(st.Addr); ok && tested[f] && stripIface(seeThrough(base)) == ssa.Value(m.Params[0]) && !isNilConst(st.Val) {
+						memo[f] = true
+					}
+				}
+			}
+		}
+	}
+	if len(memo) == 0 {
+		r.Unrecognised("C12.1: no lazily filled (memo) field of the context found; expected the cached query values")
+	}
 	check := func(kind, construct string, pos string, st ctxState) {
 		var missing []string
+		for _, f := range need(kind) {
+			if memo[f] && st.f[f].written && st.f[f].kind != kScrub {
+				missing = append(missing, f.Name()+" (a lazily filled memo: must be nil, is "+st.f[f].String()+")")
+			}
+		}
 		for _, f := range need(kind) {
 			if !st.f[f].written {
 				if f.Name() == "params" && st.f[cf.anyParams].written && st.f[cf.field("tsr")].written {
@@ -128,6 +166,8 @@ func checkC12(w *World, r *Report) {
 
 	checkC12Recorder(w, r, cf)
 	checkC12Clone(w, r, cf)
+	checkCloneWithCarries(w, r, "C12.5", "route", "scope", "tsr")
+	checkParamsSelector(w, r, "C12.6")
 }
 
 type exemption struct {
@@ -401,4 +441,243 @@ func checkC12Clone(w *World, r *Report, cf *CtxFlow) {
 	})
 	ru.Check("Clone copies the request", w.Pos(clone.Pos()), "the http.Request is deep-copied (Request.Clone)", hasReqClone, fmt.Sprint(hasReqClone))
 	ru.Check("Clone copies the response headers", w.Pos(clone.Pos()), "the response header map is copied (Header.Clone)", hasHdrClone, fmt.Sprint(hasHdrClone))
+}
+
+// checkCloneWithCarries: the copy handed out by CloneWith carries the receiver's route, scope and trailing-slash
+// flag: for each of those fields the last write to the copy, on every path to the return, is a store of the
+// receiver's field. (C12.1 only demands that the field was assigned; a context "reset" to no route would satisfy it
+// while a handler working on the copy loses its route, pattern and per-route client-IP resolver.)
+func checkCloneWithCarries(w *World, r *Report, id string, names ...string) {
+	ru := r.Rule(id, "CloneWith carries the handler's state: on every path to its return, the last write to the copy's "+strings.Join(names, "/")+" is a store of the receiver's field of the same name", len(names))
+	fn := w.Method("cTx", "CloneWith")
+	if fn == nil || len(fn.Params) == 0 {
+		r.Unrecognised("%s: (*cTx).CloneWith not found", id)
+		return
+	}
+	r.Analysed(FuncName(fn))
+	recv := ssa.Value(fn.Params[0])
+	var cp ssa.Value
+	eachInstr(fn, func(in ssa.Instruction) {
+		if c, ok := in.(*ssa.Call); ok && isMethodNamed(calleeObj(c), "sync", "Pool", "Get") {
+			cp = c
+			if refs := c.Referrers(); refs != nil {
+				for _, ref := range *refs {
+					if ta, ok := ref.(*ssa.TypeAssert); ok {
+						cp = ta
+					}
+				}
+			}
+		}
+	})
+	if cp == nil {
+		r.Unrecognised("%s: CloneWith does not take its copy from a pool", id)
+		return
+	}
+	isCp := func(v ssa.Value) bool { return stripIface(seeThrough(stripIface(v))) == cp }
+	// may the callee (transitively) store to field f of a context?
+	var writes func(g *ssa.Function, f *types.Var, depth int, seen map[*ssa.Function]bool) bool
+	writes = func(g *ssa.Function, f *types.Var, depth int, seen map[*ssa.Function]bool) bool {
+		if g == nil || len(g.Blocks) == 0 {
+			return false
+		}
+		if seen[g] || depth > 4 {
+			return seen[g] == false && depth > 4
+		}
+		seen[g] = true
+		found := false
+		eachInstr(g, func(in ssa.Instruction) {
+			switch x := in.(type) {
+			case *ssa.Store:
+				if _, ff, ok := fieldOfAddr(x.Addr); ok && ff == f {
+					found = true
+				}
+			case ssa.CallInstruction:
+				if cal := staticCallee(x); cal != nil && cal.Pkg == g.Pkg && writes(cal, f, depth+1, seen) {
+					found = true
+				}
+			}
+		})
+		return found
+	}
+	var rets []*ssa.Return
+	eachInstr(fn, func(in ssa.Instruction) {
+		if rt, ok := in.(*ssa.Return); ok {
+			rets = append(rets, rt)
+		}
+	})
+	reach := func(a, b ssa.Instruction) bool { // b may execute after a
+		if a.Block() == b.Block() && instrIndex(a) < instrIndex(b) {
+			return true
+		}
+		seen := map[*ssa.BasicBlock]bool{}
+		var st []*ssa.BasicBlock
+		st = append(st, a.Block().Succs...)
+		for len(st) > 0 {
+			x := st[len(st)-1]
+			st = st[:len(st)-1]
+			if seen[x] {
+				continue
+			}
+			seen[x] = true
+			if x == b.Block() {
+				return true
+			}
+			st = append(st, x.Succs...)
+		}
+		return false
+	}
+	for _, name := range names {
+		f := w.Field(w.FoxType("cTx"), name)
+		if f == nil {
+			r.Unrecognised("%s: context field %s not found", id, name)
+			continue
+		}
+		var all []ssa.Instruction
+		var good []ssa.Instruction
+		eachInstr(fn, func(in ssa.Instruction) {
+			switch x := in.(type) {
+			case *ssa.Store:
+				if base, ff, ok := fieldOfAddr(x.Addr); ok && ff == f && isCp(base) {
+					all = append(all, in)
+					if b2, f2, ok := loadedField(x.Val); ok && f2 == f && stripIface(seeThrough(b2)) == recv {
+						good = append(good, in)
+					}
+				}
+			case ssa.CallInstruction:
+				uses := false
+				for _, a := range callArgs(x) {
+					if isCp(a) {
+						uses = true
+					}
+				}
+				if !uses {
+					return
+				}
+				cal := staticCallee(x)
+				if cal == nil || writes(cal, f, 0, map[*ssa.Function]bool{}) {
+					all = append(all, in)
+				}
+			}
+		})
+		why := ""
+		switch {
+		case len(good) == 0:
+			why = "no store cp." + name + " = c." + name
+		default:
+			ok := false
+			for _, g := range good {
+				dom := true
+				for _, rt := range rets {
+					if !instrDominates(g, rt) {
+						dom = false
+					}
+				}
+				later := ""
+				for _, o := range all {
+					if o != g && reach(g, o) {
+						later = w.InstrPos(o)
+					}
+				}
+				if dom && later == "" {
+					ok = true
+				} else if later != "" {
+					why = "the copied value is overwritten afterwards at " + later
+				} else {
+					why = "the copy at " + w.InstrPos(g) + " does not happen on every path to the return"
+				}
+			}
+			if ok {
+				why = ""
+			}
+		}
+		pos := w.Pos(fn.Pos())
+		if len(good) > 0 {
+			pos = w.InstrPos(good[0])
+		}
+		ru.Check("CloneWith copies "+name, pos, "cp."+name+" = c."+name+" is the last write to that field before the copy is returned", why == "", orDefault(why, "copied from the receiver, not overwritten"))
+	}
+}
+
+// checkParamsSelector: a context keeps two parameter buffers and the tsr flag says which one describes the current
+// request (a match obtained by adding or removing a trailing slash records its parameters in tsrParams). Outside the
+// matcher, which fills both, the content of either buffer may only be read under the matching value of the flag of the
+// same context; everything else has to go through Params()/Param().
+func checkParamsSelector(w *World, r *Report, id string) {
+	ru := r.Rule(id, "parameter buffers are read according to tsr: outside the matcher, every read of the content of cTx.params is dominated by tsr == false of the same context and every read of cTx.tsrParams by tsr == true (truncations to length 0 and writes excepted)", 4)
+	ctxT := w.FoxType("cTx")
+	params, tsrParams, tsr := w.Field(ctxT, "params"), w.Field(ctxT, "tsrParams"), w.Field(ctxT, "tsr")
+	if params == nil || tsrParams == nil || tsr == nil {
+		r.Unrecognised("%s: context fields params/tsrParams/tsr not found", id)
+		return
+	}
+	isTrunc := func(u *ssa.UnOp) bool { // (*c.params)[:0] or [:n] reslice stored back: not a read of the content
+		refs := u.Referrers()
+		if refs == nil || len(*refs) == 0 {
+			return false
+		}
+		for _, ref := range *refs {
+			sl, ok := ref.(*ssa.Slice)
+			if !ok || sl.X != ssa.Value(u) || sl.Low != nil {
+				return false
+			}
+			if z, ok := constInt(sl.High); !ok || z != 0 {
+				return false
+			}
+		}
+		return true
+	}
+	for _, fn := range w.FoxFuncs() {
+		if isTestHelper(w, fn) {
+			continue
+		}
+		// the matcher: functions that store a non-empty slice into one of the buffers
+		type read struct {
+			u    *ssa.UnOp
+			f    *types.Var
+			base ssa.Value
+		}
+		var reads []read
+		writer := false
+		eachInstr(fn, func(in ssa.Instruction) {
+			switch x := in.(type) {
+			case *ssa.Store:
+				if ptr, ok := x.Addr.(*ssa.UnOp); ok && ptr.Op == token.MUL {
+					if _, f, ok := fieldOfAddr(ptr.X); ok && (f == params || f == tsrParams) {
+						if sl, ok := x.Val.(*ssa.Slice); ok {
+							if z, ok := constInt(sl.High); ok && z == 0 {
+								return
+							}
+						}
+						writer = true
+					}
+				}
+			case *ssa.UnOp:
+				if x.Op != token.MUL {
+					return
+				}
+				ptr, ok := x.X.(*ssa.UnOp)
+				if !ok || ptr.Op != token.MUL {
+					return
+				}
+				if base, f, ok := fieldOfAddr(ptr.X); ok && (f == params || f == tsrParams) && !isTrunc(x) {
+					reads = append(reads, read{x, f, base})
+				}
+			}
+		})
+		if writer || len(reads) == 0 {
+			continue
+		}
+		r.Analysed(FuncName(fn))
+		for _, rd := range reads {
+			want := rd.f == tsrParams
+			ok := false
+			for _, ft := range factsAtBlock(rd.u.Block()) {
+				if b2, ff, isLoad := loadedField(ft.Cond); isLoad && ff == tsr && ft.Val == want && sameExpr(seeThrough(b2), seeThrough(rd.base)) {
+					ok = true
+				}
+			}
+			ru.Check("read of "+rd.f.Name()+" in "+FuncName(fn), w.InstrPos(rd.u), fmt.Sprintf("dominated by tsr == %v of the same context", want), ok,
+				orDefault(map[bool]string{true: "guarded"}[ok], "no dominating test of the context's tsr flag: the other buffer may be the one describing this request"))
+		}
+	}
 }
